@@ -111,6 +111,22 @@ def r2_bernoulli(ctx):
     ctx.check("dist=Bernoulli('model')" in U(ob.node), "C08.R2", ob, ob.node, "observations ~ Bernoulli(model)", "the binary observation model is no longer Bernoulli(model)", construct="Bernoulli('model')")
 
 
+def _equal_over_positive_reals(a, b, clamp) -> bool:
+    """a == b as functions of positive reals (scales, shapes, the clamped time): powers may be distributed over products there"""
+    try:
+        T = sp.Symbol("T_clamped", positive=True)
+        sub = {clamp: T}
+        pos = {}
+        for sym_ in (a.free_symbols | b.free_symbols):
+            if sym_.name in ("nu", "rho"):
+                pos[sym_] = sp.Symbol(sym_.name + "_pos", positive=True)
+        d = (a - b).subs(sub).subs(pos).replace(F["exp"], sp.exp)
+        d = sp.simplify(sp.powsimp(sp.expand_power_base(sp.expand(d), force=True), force=True))
+        return d == 0
+    except Exception:
+        return False
+
+
 def r3_weibull(ctx):
     ctx.rule("C08.R3", "right-censored Weibull: survival, hazard, reparametrised scale, censoring dependency", 8)
     ix = ctx.ix
@@ -163,7 +179,18 @@ def r3_weibull(ctx):
             got_s = ev.call(ms, args)
             clamp = F["clamp"](X - tau, sp.Integer(0), sp.Symbol("None"))
             ref_s = -((clamp / nu_ref) ** rho)
-            ctx.check(equal(got_s, ref_s), "C08.R3", ms, ms.node, f"{cname}: log-survival = -(clamp(x - tau, 0)/nu~)^rho", f"{cname}: log-survival is {got_s}; documented {ref_s}", instance=cname)
+            same = equal(got_s, ref_s)
+            if not same and _equal_over_positive_reals(got_s, ref_s, clamp):
+                # the same function of positive reals, written with the power distributed over the factors: are the factors powers of parameters alone?
+                lone = [pw for pw in got_s.atoms(sp.Pow) if rho in pw.exp.free_symbols and not pw.base.has(clamp) and pw.base.free_symbols]
+                if lone:
+                    ctx.violation("C08.R3", ms, ms.node, f"{cname}: the log-survival is written with the power distributed over its factors: `{lone[0]}` is computed on its own. Equal to the documented "
+                                  f"{ref_s} over the reals, but in float32 a parameter raised to +-rho under/overflows for sharp hazards (nu**rho beyond 1e38) while the documented ratio stays in range: "
+                                  "the value is then 0, inf or NaN instead of the negative log-density", construct=f"{cname}: power of the ratio", instance=cname)
+                else:
+                    ctx.ok("C08.R3", ms, ms.node, f"{cname}: log-survival equals -(clamp(x - tau, 0)/nu~)^rho over the positive reals", instance=cname)
+            else:
+                ctx.check(same, "C08.R3", ms, ms.node, f"{cname}: log-survival = -(clamp(x - tau, 0)/nu~)^rho", f"{cname}: log-survival is {got_s}; documented {ref_s}", instance=cname)
             ctx.check(ind not in got_s.free_symbols, "C08.R3", ms, ms.node, f"{cname}: the survival term does not depend on the censoring indicator",
                       f"{cname}: the survival term depends on the censoring indicator: censored individuals lose (part of) their survival contribution", construct="survival independent of the indicator", instance=cname)
             mh = ix.method(cls, "compute_log_likelihood_hazard")
